@@ -136,7 +136,7 @@ class Universe:
                 out[os.path.relpath(os.path.join(dp, n), top)] = "d"
             for n in fns:
                 rel = os.path.relpath(os.path.join(dp, n), top)
-                if rel != SENT and not os.path.basename(rel).startswith(PROBE):
+                if not os.path.basename(rel).startswith(SENT) and not os.path.basename(rel).startswith(PROBE):
                     out[rel] = "f"
         return out
 
@@ -345,6 +345,25 @@ class OpGen:
             d = fresh(par)
             if d not in m.t and d.count("/") - root.count("/") + depth_extra <= u.max_depth:
                 c.append((w.get("move_in", 3), ("move_in", s, d)))
+        if self.allow_out_ops:
+            out_dirs = [p for p in m.t if p.startswith("out/") and m.t[p] == "d"]
+            for _ in range(2):
+                if out_dirs:
+                    d = r.choice(out_dirs)
+                    p = fresh(d)
+                    if p not in m.t and p.count("/") < 5:
+                        c.append((2, ("create", p)))
+                        c.append((2, ("mkdir", p)))
+                    kids = m.children(d)
+                    if kids:
+                        q = r.choice(kids)
+                        if m.t[q] == "f":
+                            c.append((2, ("write", q)))
+                            c.append((2, ("unlink", q)))
+                        else:
+                            c.append((2, ("rmtree", q)))
+                    if d.count("/") == 1:
+                        c.append((1.5, ("rmtree", d)))
         return c
 
     def next_op(self):
@@ -369,11 +388,20 @@ class Collector:
         self.cv = threading.Condition()
         self.sent_paths = sent_paths
         self.sentinels = 0
+        self.polling = False
 
     def dispatch(self, event):
         with self.cv:
             self.events.append(event)
-            if event.src_path in self.sent_paths and type(event).__name__ == "FileModifiedEvent":
+            if self.polling:
+                # created file sentinel; inode re-use may turn "unlink old + create new" into a moved event
+                if event.event_type in ("created", "moved"):
+                    p = event.dest_path if event.dest_path else event.src_path
+                    bn = os.path.basename(os.fsdecode(p))
+                    if bn.startswith(SENT + "-"):
+                        self.sentinels = max(self.sentinels, int(bn[len(SENT) + 1:]))
+                        self.cv.notify_all()
+            elif event.src_path in self.sent_paths and type(event).__name__ == "FileModifiedEvent":
                 self.sentinels += 1
                 self.cv.notify_all()
 
@@ -418,6 +446,7 @@ class Session:
             from watchdog.observers.polling import PollingObserver
 
             self.obs = PollingObserver(timeout=poll_interval)
+        self.col.polling = observer != "inotify"
         self.exc_mark = monitors.exc_mark()
         self.watch = self.obs.schedule(self.col, self.root_spelled, recursive=recursive, event_filter=event_filter)
         self.obs.start()
@@ -450,9 +479,18 @@ class Session:
     def drain(self, timeout=30.0):
         """Toggle the sentinel's mode bits and wait until that FileModifiedEvent reached the handler (pipeline is FIFO)."""
         self.n_sent += 1
-        p = self.u.abs(self.u.root_name + "/" + SENT)
-        st = os.stat(p)
-        os.chmod(p, stat.S_IMODE(st.st_mode) ^ 0o100)
+        if self.kind != "inotify":
+            # polling cannot see an attribute change: the sentinel is a freshly created file
+            p = self.u.abs(self.u.root_name + "/" + f"{SENT}-{self.n_sent}")
+            old = self.u.abs(self.u.root_name + "/" + f"{SENT}-{self.n_sent - 1}")
+            if os.path.exists(old):
+                os.unlink(old)
+            with open(p, "w"):
+                pass
+        else:
+            p = self.u.abs(self.u.root_name + "/" + SENT)
+            st = os.stat(p)
+            os.chmod(p, stat.S_IMODE(st.st_mode) ^ 0o100)
         end = time.monotonic() + timeout
         with self.col.cv:
             while self.col.sentinels < self.n_sent:
@@ -474,7 +512,8 @@ class Session:
         with self.col.cv:
             evs = self.col.events[self.consumed:]
             self.consumed = len(self.col.events)
-        return [e for e in evs if not (e.src_path == self.sent_path)]
+        return [e for e in evs if not (e.src_path == self.sent_path or os.path.basename(os.fsdecode(e.src_path)).startswith(SENT + "-")
+                                       or (e.dest_path and os.path.basename(os.fsdecode(e.dest_path)).startswith(SENT + "-")))]
 
     def close(self):
         try:
